@@ -143,7 +143,7 @@ var timeAnchors = []int64{
 	253402300799, // 9999-12-31 23:59:59
 }
 
-var sampleValues = []string{"Example", "ex ample.-:=?", "Zürich", "日本語", "a*b", "a&b", "x@y.z", "0", " lead", "trail ", "aaaaaaaaaaaaaaaaaaaaaaaaaaaaaaaaaaaaaaaaaaaaaaaaaaaaaaaaaaaaaaaaaaaaaaaa", "12 34", "Ωmega", "under_score", "semi;colon", "quo\"te", "(paren)", "plus+", "q?", "a,b"}
+var sampleValues = []string{"Example", "ex ample.-:=?", "Zürich", "日本語", "a*b", "a&b", "x@y.z", "0", " lead", "trail ", "aaaaaaaaaaaaaaaaaaaaaaaaaaaaaaaaaaaaaaaaaaaaaaaaaaaaaaaaaaaaaaaaaaaaaaaa", "12 34", "Ωmega", "under_score", "semi;colon", "quo\"te", "(paren)", "plus+", "q?", "a,b", "Caf\u00e9", "\u00c6r\u00f8sk\u00f8bing", "Stra\u00dfe \u00a7 5", "\u00ff\u00a0\u0080"}
 
 var dnsSamples = []string{"example.com", "a.example.com", "*.example.com", "xn--bcher-kva.example", "localhost", "a-b.c-d.example.org", "1.example.net", "example.com.", "EXAMPLE.com", "very.deep.sub.domain.example.co.uk"}
 var emailSamples = []string{"user@example.com", "a.b+c@sub.example.org", "x@y.z", "\"quoted\"@example.com", "UPPER@EXAMPLE.COM"}
@@ -176,7 +176,17 @@ func genAttrs(t *rapid.T, label string, enc int) []AttrSpec {
 	var out []AttrSpec
 	for i := 0; i < n; i++ {
 		a := AttrSpec{Type: uni(t, label+"t") % len(attrTypes)}
-		switch r := uni(t, label+"k") % 4; r {
+		switch r := uni(t, label+"k") % 5; r {
+		case 4: // ISO 8859-1 text: what TeletexString attributes hold in practice (octets >= 0x80)
+			b := rapid.SliceOfN(rapid.Byte(), 1, 12).Draw(t, label+"l1")
+			r := make([]rune, len(b))
+			for i, x := range b {
+				if x < 0x20 || x == 0x7f {
+					x = 0xe9
+				}
+				r[i] = rune(x)
+			}
+			a.Value = string(r)
 		case 0:
 			a.Value = rapid.StringMatching(`[A-Za-z0-9 .,'()+/:=?-]{0,24}`).Draw(t, label+"v")
 		case 1:
@@ -546,6 +556,9 @@ func pkiAttr(a AttrSpec) pki.Attr {
 			out.Tag = derx.TagPrintable
 		}
 	case 2:
+		// TeletexString, ASCII only. With octets >= 0x80 the pinned reference (crypto/x509 of go1.26.8) reads
+		// ISO 8859-1 and returns UTF-8 while the fork returns the raw octets: version drift of the reference
+		// (older crypto/x509 did what the fork does), kept out of the generator - see level_note.
 		if isASCII(a.Value) {
 			out.Tag = derx.TagT61
 		}
